@@ -113,6 +113,12 @@ def gen_cases(tier, seed):
                                   steps_per_update=int(rng.integers(3, 12)),
                                   train_after_episode=tae,
                                   seed=int(rng.integers(1 << 20)), cost=3))
+            # episodes that end exactly on the collection target
+            L = int(rng.integers(2, 6))
+            cases.append(dict(kind="episodic", algo=algo,
+                              script=[[L, "T"], [L, "U"]], total_timesteps=4 * L,
+                              steps_per_update=2 * L, train_after_episode=False,
+                              seed=int(rng.integers(1 << 20)), cost=3))
         cases.append(dict(kind="a2c", scripts=[make_script(rng) for _ in range(3)],
                           n_envs=int(rng.integers(1, 4)),
                           total_timesteps=int(rng.integers(10, 50)),
